@@ -13,7 +13,13 @@ use std::io::Write;
 use std::process::{Command, Stdio};
 
 fn lib_menu() -> Vec<&'static str> {
+    // a line the static check rejects deep inside an expression (never executed), and a valid
+    // line nested deep enough that nothing of the nesting budget may have been used up before
+    let deep_bad: &'static str = Box::leak(format!("30 IF 0 THEN PRINT {}1 + \"A\"{}", "(".repeat(40), ")".repeat(40)).into_boxed_str());
+    let deep_ok: &'static str = Box::leak(format!("40 PRINT {}7{}", "(".repeat(40), ")".repeat(40)).into_boxed_str());
     vec![
+        deep_bad,
+        deep_ok,
         "10 X = 1",
         "10 PRINT X",
         "10 PRINT \"é\" + 1",
